@@ -312,7 +312,15 @@ func aliasStmt(g *sgen.G, d int) *gen.Node {
 		return gen.NStr([]string{"k", "a", "b"}[rapid.IntRange(0, 2).Draw(g.T, "amkey")])
 	}
 	g.Feat["alias"] = true
-	switch rapid.IntRange(0, 2).Draw(g.T, "akind") {
+	switch rapid.IntRange(0, 4).Draw(g.T, "akind") {
+	case 3:
+		g.Env[dst], g.Defined[dst] = sgen.TList, true
+		g.Feat["collection-in-collection"] = true
+		return gen.NSet(dst, gen.NList(id(src), gen.NInt(0)))
+	case 4:
+		g.Env[dst], g.Defined[dst] = sgen.TMap, true
+		g.Feat["collection-in-collection"] = true
+		return gen.NSet(dst, gen.NMap(gen.NStr("k"), id(src)))
 	case 0:
 		g.Env[dst], g.Defined[dst] = g.Env[src], true
 		return gen.NSet(dst, id(src))
@@ -368,6 +376,61 @@ func TestSnapshots(t *testing.T) {
 		c := sem.NewCase(gen.FixAll(prog))
 		judge(t, "snapshots", c, "snap:"+gen.ShapeAll(prog), true, "snapshot")
 	})
+}
+
+
+// TestAliasTable: every way of taking an alias x every way of writing through it, observed through every name.
+func TestAliasTable(t *testing.T) {
+	type aliasWay struct {
+		name string
+		take func() *gen.Node // defines `al` from `a`
+		path func(k *gen.Node) *gen.Node // the element of a[...] as reached through al
+	}
+	inner := func() *gen.Node { return sgen.Lit([]any{int64(1), []any{int64(2), int64(3)}, map[string]any{"k": []any{int64(4)}}}) }
+	ways := []aliasWay{
+		{"direct", func() *gen.Node { return gen.NSet("al", id("a")) }, func(k *gen.Node) *gen.Node { return gen.NIndex(id("al"), k) }},
+		{"in-list-literal", func() *gen.Node { return gen.NSet("al", gen.NList(gen.NInt(0), id("a"))) }, func(k *gen.Node) *gen.Node { return gen.NIndex(id("al"), gen.NInt(1), k) }},
+		{"in-map-literal", func() *gen.Node { return gen.NSet("al", gen.NMap(gen.NStr("m"), id("a"))) }, func(k *gen.Node) *gen.Node { return gen.NIndex(id("al"), gen.NStr("m"), k) }},
+		{"stored-into-list", func() *gen.Node { return gen.NIf([]*gen.Node{gen.NBool(true)}, [][]*gen.Node{{gen.NSet("al", gen.NList(gen.NNil())), gen.NAssign("=", []*gen.Node{gen.NIndex(id("al"), gen.NInt(0))}, []*gen.Node{id("a")})}}, nil, false) }, func(k *gen.Node) *gen.Node { return gen.NIndex(id("al"), gen.NInt(0), k) }},
+		{"stored-into-map", func() *gen.Node { return gen.NIf([]*gen.Node{gen.NBool(true)}, [][]*gen.Node{{gen.NSet("al", gen.NMap()), gen.NAssign("=", []*gen.Node{gen.NIndex(id("al"), gen.NStr("z"))}, []*gen.Node{id("a")})}}, nil, false) }, func(k *gen.Node) *gen.Node { return gen.NIndex(id("al"), gen.NStr("z"), k) }},
+		{"through-slice", func() *gen.Node { return gen.NSet("al", gen.NSlice(id("a"), nil, nil, nil, false)) }, func(k *gen.Node) *gen.Node { return gen.NIndex(id("al"), k) }},
+		{"loop-variable", func() *gen.Node { return gen.NSet("al", gen.NList(id("a"))) }, nil},
+	}
+	n := 0
+	for _, w := range ways {
+		for wi := 0; wi < 4; wi++ {
+			prog := []*gen.Node{gen.NSet("a", inner())}
+			// the definition must be at top level: the `if true {...}` wrappers above define `al` inside a block, so predefine it
+			prog = append(prog, gen.NSet("al", gen.NNil()), w.take())
+			var write *gen.Node
+			if w.path == nil {
+				// for e in [a] { e[0] = 9 }
+				write = gen.NForIn("e", id("al"), []*gen.Node{gen.NAssign("=", []*gen.Node{gen.NIndex(id("e"), gen.NInt(0))}, []*gen.Node{gen.NInt(9)})})
+				if wi > 0 {
+					continue
+				}
+			} else {
+				tgt := w.path(gen.NInt(int64(wi % 2))) // element 0 (scalar) or 1 (nested list)
+				switch wi {
+				case 0:
+					write = gen.NAssign("=", []*gen.Node{tgt}, []*gen.Node{gen.NStr("W")})
+				case 1:
+					tgt.Args = append(tgt.Args, gen.NInt(-1))
+					write = gen.NAssign("=", []*gen.Node{tgt}, []*gen.Node{gen.NStr("deep")})
+				case 2:
+					write = gen.NAssign("+=", []*gen.Node{tgt}, []*gen.Node{gen.NInt(100)})
+				default:
+					tgt.Args = append(tgt.Args, gen.NInt(0))
+					write = gen.NAssign("*=", []*gen.Node{tgt}, []*gen.Node{gen.NInt(7)})
+				}
+			}
+			prog = append(prog, write, gen.NCall("probe", gen.NStr("r"), id("a"), id("al")), gen.NCall("add_key", id("snap"), id("a")))
+			c := sem.NewCase(gen.FixAll(prog))
+			judge(t, "aliastable", c, fmt.Sprintf("alias/%s/%d", w.name, wi), w.name != "through-slice" || wi == 1 || wi == 3, "alias-table/"+w.name)
+			n++
+		}
+	}
+	evid.Exhaustive("alias ways x write ways", n)
 }
 
 func TestReplays(t *testing.T) {
